@@ -28,7 +28,9 @@ Queries == {"num_sections", "section_by_name", "get_section", "section_index", "
             "cu_at", "cu_containing", "top_die", "die_at", "die_attrs", "parent", "children", "follow_ref",
             "line_program", "cfi", "eh_cfi", "decoded", "aranges", "pubnames", "loc_of_die", "ranges_of_die",
             "versions", "hash_lookup", "attributes", "ehabi", "has_dwarf", "address_offsets", "section_in_segment",
-            "section_data", "segment_data", "string_at"}
+            "section_data", "segment_data", "string_at",
+            \* a further DWARFInfo from the same file object (the contents of its sections: relocation is applied once per view)
+            "dwarf_again"}
 GenKinds == {"iter_sections", "iter_segments", "iter_symbols", "iter_tags", "iter_notes", "iter_CUs", "iter_DIEs",
              "iter_children", "iter_siblings", "iter_location_lists", "iter_range_lists", "iter_relocations",
              "iter_subsections", "iter_versions", "line_entries"}
